@@ -22,12 +22,8 @@ META = {
                'type and (NLReader::ReadUInt(ub), ReadUInt(lb,ub), ReadNumArgs, ReadOpCode) inside the bound passed; ReadHeader\'s '
                'accumulated common-expression count cannot overflow; ReadLinearExpr delivers exactly the announced number of '
                'terms with variable indices inside the header range',
-    'not_decided': 'the big switch of NLReader::Read and the recursive expression readers (templates over handler types, '
-                   'recursion) - only a call-site audit; Begin/End nesting; file path = memory path; READ_BOUNDS_FIRST second '
-                   'pass; mp::Problem builder; DoReportError is verified under the precondition loc > start_ or line_start_ == start_',
-    'not_under_contract': ['NLReader::Read (segment switch)', 'NLReader::ReadNumericExpr / ReadLogicalExpr / ReadSymbolicExpr (recursive)',
-                           'NLReader::ReadBounds / ReadColumnSizes / ReadInitialValues / ReadSuffix (handler-type templates)',
-                           'NLFileReader / MemoryMappedFile (OS)', 'BasicProblem / ExprFactory (SafeInt sizes: see C17)'],
+    'not_decided': 'termination of the mutually recursive expression readers (partial correctness: induction on call depth); MemoryMappedFile (OS mapping: the mmap path relies on the zero-filled rest of the last page); READ_BOUNDS_FIRST second pass as a whole; the mp::Problem builder behind the handler; DoReportError is verified under the precondition loc > start_ or line_start_ == start_',
+    'not_under_contract': ['MemoryMappedFile (OS)', 'NLFileReader::Read(filename, handler, flags) dispatch (two calls of proved functions)', 'BasicProblem / ExprFactory (SafeInt sizes: see C17)', 'name readers (ReadNames)'],
     'assumptions': ['one reader object: ptr_, start_, end_, token_, line_start_, line_ rendered as globals',
                     'ReportError / DoReportError end the path by throwing (their message formatting is dropped)',
                     'isspace is the C-locale predicate total on int; strtod never passes the first NUL',
@@ -397,13 +393,19 @@ def h_bin_int(name):
 
 
 def h_bin_uint():
-    parts = [PRE, BIN_PRE,
+    # the byte order conversion is present (either the identity or the byte reversal of EndiannessConverter), should the body use it directly
+    conv = '''
+_Bool g_swap;
+static int vp_convert_int(int v) { if (!g_swap) return v; unsigned u = (unsigned)v; u = (u >> 24) | ((u >> 8) & 0xff00u) | ((u << 8) & 0xff0000u) | (u << 24); return (int)u; }
+#define Convert(v) vp_convert_int(v)
+'''
+    parts = [PRE, BIN_PRE, conv, ADV, decl('Read'),
              'int ReadInt_int(void) { ' + PRECOND + ' __CPROVER_assume(end_ - ptr_ >= (long)sizeof(int)); token_ = ptr_; ptr_ += sizeof(int); return nondet_int(); }\n',
-             Fn(NLR, r'int ReadUInt\(\) \{\s*int value = ReadInt<int>\(\);', 'int bin_ReadUInt(void)',
+             Fn(NLR, r'int ReadUInt\(\) \{', 'int bin_ReadUInt(void)', ordinal=1,      # the second definition in the file: BinaryReader's (the first is TextReader's one-liner)
                 contract='__CPROVER_requires(RD_LE) __CPROVER_ensures(RD_LE && __CPROVER_return_value >= 0 && FWD) __CPROVER_assigns(ptr_, token_)',
-                label='mp::internal::BinaryReader::ReadUInt', nmatches=1),
-             'void harness(void) { vp_one = 1; vp_mkreader(); bin_ReadUInt(); VP_REACH("normal return"); }\n']
-    return Harness('C02.binary.ReadUInt', 'C02', parts, enforce='bin_ReadUInt')
+                subst=[(r'\bthis->', '', -1)], label='mp::internal::BinaryReader::ReadUInt', nmatches=None),
+             'void harness(void) { vp_one = 1; g_swap = nondet_bool(); vp_mkreader(); bin_ReadUInt(); VP_REACH("normal return"); }\n']
+    return Harness('C02.binary.ReadUInt', 'C02', parts, enforce='bin_ReadUInt', replace=['Read'] if False else [], stubs=['memcpy'])
 
 
 def h_bin_double():
